@@ -729,7 +729,7 @@ func showEndpoints(eps []*model.IstioEndpoint) string {
 	for _, e := range eps {
 		l = append(l, showEndpoint(e))
 	}
-	sort.Strings(l)
+	// the LIST as the controller holds it (no sorting): endpointSliceCache.get walks the slices in name order
 	return "[" + strings.Join(l, ",") + "]"
 }
 
